@@ -118,7 +118,8 @@ def oracle_df(case):
 @st.composite
 def rms_case(draw, tier):
     n = draw(st.integers(2, 400))
-    return {"n": n, "seed": draw(st.integers(0, 2 ** 31 - 1)), "grid": draw(st.sampled_from(["log", "lin", "irregular"])),
+    return {"n": n, "seed": draw(st.integers(0, 2 ** 31 - 1)), "grid": draw(st.sampled_from(["log", "lin", "irregular", "dense_offset", "tiny"])),
+            "edge": draw(st.sampled_from(["free", "free", "between", "hug_out", "hug_in"])),
             "u": sorted(draw(st.lists(st.one_of(st.floats(0.01, 0.99), st.floats(0.01, 0.99), st.floats(-0.2, 1.2)), min_size=3, max_size=3))), "snap": draw(st.booleans()),
             "fscale": draw(st.sampled_from([1.0, 1e-3, 1e4]))}
 
@@ -130,9 +131,14 @@ def _grid(case):
         f = np.logspace(-2, 2, n)
     elif case["grid"] == "lin":
         f = np.linspace(0.5, 100, n)
+    elif case["grid"] == "dense_offset":
+        f = 900.0 + 1e-3 * np.arange(n)                  # spacing/frequency ~ 1e-6 (periodogram of a long record)
+    elif case["grid"] == "tiny":
+        f = 1e-9 * (1.0 + np.arange(n))                  # nHz grid: spacing below any absolute tolerance
     else:
         f = np.cumsum(rng.uniform(0.01, 1.0, n))
-    f = f * case["fscale"]
+    if case["grid"] not in ("dense_offset", "tiny"):
+        f = f * case["fscale"]
     asd = np.exp(rng.standard_normal(n)) * (1 + 10 / (1 + f / f[0]))
     return f, asd
 
@@ -144,6 +150,18 @@ def oracle_rms(case):
     pts = [lo_all + u * (hi_all - lo_all) for u in case["u"]]
     if case["snap"]:
         pts = [float(f[int(np.argmin(np.abs(f - p)))]) for p in pts]
+    edge = case.get("edge", "free")
+    if edge != "free" and len(f) >= 3:
+        # band edges placed relative to the grid: halfway between neighbours, or one part in 1e9 of the local spacing
+        # outside / inside a grid point (an inclusive crop must include exactly the points with lo <= f <= hi)
+        k = [int(np.argmin(np.abs(f - p))) for p in pts]
+        df = float(np.min(np.diff(f)))
+        if edge == "between":
+            pts = [float(0.5 * (f[min(i, len(f) - 2)] + f[min(i, len(f) - 2) + 1])) for i in k]
+        elif edge == "hug_out":
+            pts = [float(f[k[0]] + 1e-3 * df), float(f[k[1]]), float(f[k[2]] - 1e-3 * df)]
+        else:
+            pts = [float(f[k[0]] - 1e-3 * df), float(f[k[1]]), float(f[k[2]] + 1e-3 * df)]
     a, b, c = sorted(pts)
     viol = []
 
@@ -159,7 +177,7 @@ def oracle_rms(case):
     full = chk(None, "full")
     r_ab, r_bc, r_ac = chk((a, b), "ab"), chk((b, c), "bc"), chk((a, c), "ac")
     inb = (f >= a) & (f <= c)
-    if case["snap"] and a < b < c:
+    if a < b < c and bool(np.any(f == b)):
         # adjacent bands sharing the grid point b: additive in power
         if not abs(r_ab ** 2 + r_bc ** 2 - r_ac ** 2) <= 1e-10 * max(r_ac ** 2, 1e-300):
             viol.append(V("not_additive_in_power", a=a, b=b, c=c, ab=r_ab, bc=r_bc, ac=r_ac))
@@ -169,7 +187,7 @@ def oracle_rms(case):
     if gaps != 0.0:
         viol.append(V("empty_band_not_zero", got=gaps))
     strict = a > f[0] and c < f[-1] and int(inb.sum()) >= 2
-    return Res(viol, strict, ["rms:" + case["grid"], "rms:snap" if case["snap"] else "rms:free"])
+    return Res(viol, strict, ["rms:" + case["grid"], "rms:snap" if case["snap"] else "rms:free", "rms-edge:" + case.get("edge", "free")])
 
 
 @st.composite
